@@ -9,7 +9,9 @@ import (
 	"go/token"
 	"go/types"
 	"runtime"
+	"sort"
 	"strings"
+	"unsafe"
 	"unicode/utf8"
 
 	"golang.org/x/tools/go/ssa"
@@ -37,7 +39,100 @@ func repoPkg(path string) bool { return strings.HasPrefix(path, "github.com/netf
 
 func interpretedPkg(path string) bool { return repoPkg(path) || interpretedStd[path] }
 
-func newInterpreter(prog *ssa.Program, ex *explorer, funcs map[*ssa.Function]int) *interpreter {
+// workerCtx is per-worker state that survives paths.
+type workerCtx struct {
+	funcs map[*ssa.Function]int
+	free  map[int][]*bigBuf // recycled cell vectors of big arrays, by length
+	all   []*bigBuf         // sorted by address
+	minLo uintptr
+	maxHi uintptr
+	tpl   *template
+	arena []value
+}
+
+// bigBuf is the cell vector of an array of bigArrayLen or more elements. Package initialisers
+// allocate ~60 histogram rings of 32768 cells on every path; allocating (page faults) or
+// clearing (write barriers) 30 MB per path dominated everything, so the vectors are recycled
+// between the paths of a worker and cleared only if a path could have written to them: every
+// way of writing a cell (IndexAddr, copy/append, externals receiving the slice) marks the
+// vector dirty by address lookup (Go's heap objects do not move).
+type bigBuf struct {
+	cells  []value
+	lo, hi uintptr
+	dirty  bool
+}
+
+const bigArrayLen = 4096
+
+func (i *interpreter) bigAlloc(n int) []value {
+	wk := i.wk
+	var b *bigBuf
+	if l := wk.free[n]; len(l) > 0 {
+		b = l[len(l)-1]
+		wk.free[n] = l[:len(l)-1]
+		if b.dirty {
+			clear(b.cells)
+			b.dirty = false
+		}
+	} else {
+		b = &bigBuf{cells: make([]value, n)}
+		b.lo = uintptr(unsafe.Pointer(&b.cells[0]))
+		b.hi = b.lo + uintptr(n)*unsafe.Sizeof(b.cells[0])
+		k := sort.Search(len(wk.all), func(j int) bool { return wk.all[j].lo > b.lo })
+		wk.all = append(wk.all, nil)
+		copy(wk.all[k+1:], wk.all[k:])
+		wk.all[k] = b
+		if wk.minLo == 0 || b.lo < wk.minLo {
+			wk.minLo = b.lo
+		}
+		if b.hi > wk.maxHi {
+			wk.maxHi = b.hi
+		}
+	}
+	i.bigUsed = append(i.bigUsed, b)
+	return b.cells
+}
+
+// touch marks the big vector that cells belongs to (if any) as possibly written.
+func (i *interpreter) touch(cells []value) {
+	if cap(cells) == 0 {
+		return
+	}
+	p := uintptr(unsafe.Pointer(unsafe.SliceData(cells)))
+	wk := i.wk
+	if p < wk.minLo || p >= wk.maxHi {
+		return
+	}
+	k := sort.Search(len(wk.all), func(j int) bool { return wk.all[j].hi > p })
+	if k < len(wk.all) && wk.all[k].lo <= p {
+		wk.all[k].dirty = true
+	}
+}
+
+// touchArgs marks every big vector reachable directly from call arguments.
+func (i *interpreter) touchArgs(args []value) {
+	for _, a := range args {
+		switch x := a.(type) {
+		case []value:
+			i.touch(x)
+		case *value:
+			if x != nil {
+				if arr, ok := (*x).(array); ok {
+					i.touch(arr)
+				}
+			}
+		}
+	}
+}
+
+func (i *interpreter) releaseBig() {
+	for _, b := range i.bigUsed {
+		i.wk.free[len(b.cells)] = append(i.wk.free[len(b.cells)], b)
+	}
+	i.bigUsed = nil
+}
+
+func newInterpreter(prog *ssa.Program, ex *explorer, wk *workerCtx) *interpreter {
 	i := &interpreter{
 		prog:    prog,
 		globals: make(map[*ssa.Global]*value),
@@ -47,7 +142,8 @@ func newInterpreter(prog *ssa.Program, ex *explorer, funcs map[*ssa.Function]int
 		wgs:     map[*value]*wgObj{},
 		pools:   map[*value]*poolObj{},
 		onces:   map[*value]*onceObj{},
-		funcs:   funcs,
+		funcs:   wk.funcs,
+		wk:      wk,
 		subst:   map[string]value{},
 		env:     &envState{},
 	}
@@ -60,15 +156,24 @@ func newInterpreter(prog *ssa.Program, ex *explorer, funcs map[*ssa.Function]int
 		panic("ssa.Program doesn't include runtime package")
 	}
 	i.runtimeErrorString = runtimePkg.Type("errorString").Object().Type()
-	for _, pkg := range prog.AllPackages() {
-		for _, m := range pkg.Members {
-			if v, ok := m.(*ssa.Global); ok {
-				cell := zero(typeparams.MustDeref(v.Type()))
-				i.globals[v] = &cell
-			}
-		}
-	}
 	return i
+}
+
+// global returns the address of a package-level variable, allocating its zero value on
+// first use (most of the ~150 loaded packages are never touched on a path).
+func (i *interpreter) global(g *ssa.Global) *value {
+	if r, ok := i.globals[g]; ok {
+		return r
+	}
+	t := typeparams.MustDeref(g.Type())
+	var cell value
+	if at, ok := t.Underlying().(*types.Array); ok && at.Len() >= bigArrayLen {
+		cell = array(i.bigAlloc(int(at.Len())))
+	} else {
+		cell = zero(t)
+	}
+	i.globals[g] = &cell
+	return &cell
 }
 
 // runInits executes the root package initialiser; the synthetic init functions recurse into
@@ -217,7 +322,7 @@ func (i *interpreter) concreteOrNil(fr *frame, v value) value {
 
 // symIndexAddr returns the address of cells[idx] for symbolic idx: bounds are decided by
 // the solver; scalar cell vectors up to 512 cells give a symptr, anything else forks.
-func (i *interpreter) symIndexAddr(fr *frame, cells []value, idx *sym) value {
+func (i *interpreter) symIndexAddr(fr *frame, cells []value, idx *sym, tElt types.Type) value {
 	c := i.ex.ctx
 	_, signed, _, _ := kindInfo(idx.k)
 	var t *smt.Term
@@ -231,10 +336,17 @@ func (i *interpreter) symIndexAddr(fr *frame, cells []value, idx *sym) value {
 	if !i.ex.Branch(fr, inb, "bounds") {
 		panic(fmt.Sprintf("runtime error: index out of range [symbolic] with length %d", len(cells)))
 	}
+	if len(cells) <= 512 {
+		for j := range cells {
+			forceT(&cells[j], tElt)
+		}
+	}
 	if len(cells) <= 512 && scalarCells(cells) {
 		return symptr{arr: cells, idx: t}
 	}
-	return &cells[i.ex.Concretize(fr, t, "index")]
+	p := &cells[i.ex.Concretize(fr, t, "index")]
+	forceT(p, tElt)
+	return p
 }
 
 func (i *interpreter) makeSlice(fr *frame, instr *ssa.MakeSlice, ln, cp value) value {
@@ -264,7 +376,14 @@ func (i *interpreter) makeSlice(fr *frame, instr *ssa.MakeSlice, ln, cp value) v
 	if c > 1<<28 {
 		panic(engineError{fmt.Sprintf("make of %d elements: refusing to allocate in the engine", c)})
 	}
+	if c >= bigArrayLen {
+		b := fr.i.bigAlloc(int(c))
+		return b[:n]
+	}
 	sl := make([]value, c)
+	if c >= 64 {
+		return sl[:n] // nil cells = lazy zeros
+	}
 	z := zero(tElt)
 	switch z.(type) {
 	case structure, array:
@@ -368,6 +487,8 @@ func (i *interpreter) mapDelete(fr *frame, m *omap, key value) {
 // copyVal copies aggregate values (structs/arrays are values in Go).
 func copyVal(v value) value {
 	switch x := v.(type) {
+	case nil:
+		return nil
 	case structure:
 		a := make(structure, len(x))
 		for j := range x {
